@@ -7,7 +7,7 @@
 From Coq Require Import QArith Qreals Reals ZArith Bool List String Lra Lia Permutation Sorting.Sorted.
 From Rooc Require Import Base.XQ Model.Exp Model.Sem Model.Flatten Model.Simplify Model.Bounds Model.Linearize Model.Spec
   Proof.XQFacts Proof.SemFacts Proof.AListFacts Proof.AffineSound Proof.LinAffine Proof.LinFrame Proof.WellFormed
-  Proof.SimplifyMain Proof.FlattenSound Proof.PublishedCompile Proof.TightenSound.
+  Proof.SimplifyMain Proof.FlattenSound Proof.PublishedCompile Proof.TightenSound Proof.ShrinkSound.
 Import ListNotations.
 Local Close Scope Q_scope.
 Local Open Scope R_scope.
@@ -263,9 +263,19 @@ Record affine_model (m : model) : Prop := mkAM {
   am_plain_o : plain (m_obj m) = true;
   am_aff_c : Forall (aff_constr (cdom m) (map fst (m_domain m))) (m_constraints m);
   am_aff_o : exists o, fs_pure (m_obj m) = Some o /\ affine o = true /\ incl (avars o) (map fst (m_domain m));
-  (* the published (tightened) type of a declared variable lies inside its declared type *)
-  am_shrink : forall n d x, In (n, d) (m_domain m) ->
-    in_dom (tighten_type (analyze (decl_types m) (m_constraints m)) n (dv_type d)) x -> in_dom (dv_type d) x }.
+  (* declared bounds are not NaN and integer ranges fit i32 (what the front ends produce) *)
+  am_decl_ok : forall n d, In (n, d) (m_domain m) -> decl_ok (dv_type d) }.
+
+(* the published (tightened) type of a declared variable lies inside its declared type: the analysis only shrinks *)
+Lemma am_shrink m : affine_model m -> forall n d x, In (n, d) (m_domain m) ->
+  in_dom (tighten_type (analyze (decl_types m) (m_constraints m)) n (dv_type d)) x -> in_dom (dv_type d) x.
+Proof.
+  intros AM n d x Hin. destruct (am_wf m AM) as [ND _].
+  apply (published_inside_declared (decl_types m) (m_constraints m) n (dv_type d) x).
+  - unfold decl_types. rewrite map_map. exact ND.
+  - intros k t' Hk. unfold decl_types in Hk. apply in_map_iff in Hk as [[k0 d0] [E Hk]]. inversion E; subst. exact (am_decl_ok m AM _ _ Hk).
+  - unfold decl_types. apply in_map_iff. exists (n, d). split; [reflexivity|exact Hin].
+Qed.
 
 Lemma filter_all {A} (p : A -> bool) : forall l, (forall x, In x l -> p x = true) -> filter p l = l.
 Proof.
@@ -289,7 +299,8 @@ Theorem compile_affine_equiv m L : affine_model m -> compile m = inr L ->
   (forall rho, sat_model m rho <-> sat_linear L rho) /\
   (forall rho v, ev rho (m_obj m) = Some v -> lin_objective L rho = v).
 Proof.
-  intros [[ND Hwf] Hused Hpc Hpo Hac [o [Fo [Ao Vo]]] Hshr] HC.
+  intros AM HC. pose proof (am_shrink m AM) as Hshr.
+  destruct AM as [[ND Hwf] Hused Hpc Hpo Hac [o [Fo [Ao Vo]]] _].
   pose proof HC as HC0.
   unfold compile in HC. cbv zeta in HC.
   change (map (fun p : string * dvar => (fst p, dv_type (snd p))) (m_domain m)) with (decl_types m) in HC.
@@ -414,11 +425,7 @@ Proof.
       split; [intros s _; reflexivity|]. split; [vm_compute; reflexivity|]. split; [reflexivity|].
       intros k Hk. cbn in Hk. cbn. tauto.
   - eexists. split; [vm_compute; reflexivity|]. split; [reflexivity|]. intros k Hk. cbn in Hk. cbn. tauto.
-  - intros n d x [E|[E|[]]]; inversion E; subst; clear E.
-    + assert (T : tighten_type (analyze (decl_types m0) (m_constraints m0)) "x" (TReal (Fin 0%Q) (Fin 10%Q)) = TReal (Fin 0%Q) (Fin 8%Q)) by (vm_compute; reflexivity).
-      cbn [dv_type]. rewrite T. cbn [in_dom xq_le_R R_le_xq]. unfold Q2R; cbn. lra.
-    + assert (T : tighten_type (analyze (decl_types m0) (m_constraints m0)) "y" (TReal (Fin 0%Q) (Fin 5%Q)) = TReal (Fin 0%Q) (Fin 4%Q)) by (vm_compute; reflexivity).
-      cbn [dv_type]. rewrite T. cbn [in_dom xq_le_R R_le_xq]. unfold Q2R; cbn. lra.
+  - intros n d [E|[E|[]]]; inversion E; subst; (split; [split; discriminate|exact I]).
 Qed.
 Example m0_compiles : exists L, compile m0 = inr L.
 Proof. eexists. vm_compute. reflexivity. Qed.
@@ -441,6 +448,21 @@ Lemma ext_le_hi u' u x : ext_le u' u = true -> R_le_xq x u' -> R_le_xq x u.
 Proof.
   destruct u' as [p| | |], u as [q| | |]; cbn [ext_le R_le_xq]; intros H Hx; try discriminate; try exact I; try contradiction.
   apply q_leb_true in H. lra.
+Qed.
+Definition decl_okb (t : vtype) : bool :=
+  match t with
+  | TBoolean => true
+  | TIntegerRange l u => Z.leb i32_min l && Z.leb l i32_max && Z.leb i32_min u && Z.leb u i32_max
+  | TNonNegativeReal l u | TReal l u => negb (xq_is_nan l) && negb (xq_is_nan u)
+  end.
+Lemma decl_okb_sound t : decl_okb t = true -> decl_ok t.
+Proof.
+  destruct t as [|l u|l u|l u]; cbn [decl_okb]; intros H.
+  - split; [split; discriminate|exact I].
+  - apply andb_true_iff in H as [H H4]. apply andb_true_iff in H as [H H3]. apply andb_true_iff in H as [H1 H2].
+    apply Z.leb_le in H1, H2, H3, H4. split; [split; discriminate|lia].
+  - apply andb_true_iff in H as [H1 H2]. split; [|exact I]. split; cbn [b_of_vtype lo hi]; intros E; subst; discriminate.
+  - apply andb_true_iff in H as [H1 H2]. split; [|exact I]. split; cbn [b_of_vtype lo hi]; intros E; subst; discriminate.
 Qed.
 Definition type_sub (t' t : vtype) : bool :=
   match t', t with
@@ -511,10 +533,9 @@ Qed.
 
 Definition affine_modelb (m : model) : bool :=
   let U := map fst (m_domain m) in
-  let an := analyze (decl_types m) (m_constraints m) in
   nodup_names U
   && forallb (fun p : string * dvar => wf_vtypeb (dv_type (snd p)) && dv_used (snd p)
-                && type_sub (tighten_type an (fst p) (dv_type (snd p))) (dv_type (snd p))) (m_domain m)
+                && decl_okb (dv_type (snd p))) (m_domain m)
   && forallb (fun c => plain (c_lhs c) && plain (c_rhs c) && aff_constrb (cdom m) U c) (m_constraints m)
   && plain (m_obj m)
   && match fs_pure (m_obj m) with Some o => affine o && forallb (set_mem U) (avars o) | None => false end.
@@ -525,8 +546,7 @@ Proof.
   apply andb_true_iff in H as [H Ho]. apply andb_true_iff in H as [H Hpo]. apply andb_true_iff in H as [H Hc].
   apply andb_true_iff in H as [Hnd Hd].
   assert (Hd' : forall n d, In (n, d) (m_domain m) ->
-            wf_vtypeb (dv_type d) = true /\ dv_used d = true /\
-            type_sub (tighten_type (analyze (decl_types m) (m_constraints m)) n (dv_type d)) (dv_type d) = true).
+            wf_vtypeb (dv_type d) = true /\ dv_used d = true /\ decl_okb (dv_type d) = true).
   { intros n d Hin. pose proof (proj1 (forallb_forall _ _) Hd (n, d) Hin) as K. cbn [fst snd] in K.
     apply andb_true_iff in K as [K K3]. apply andb_true_iff in K as [K1 K2]. auto. }
   constructor.
@@ -540,7 +560,7 @@ Proof.
     apply aff_constrb_sound. exact K.
   - destruct (fs_pure (m_obj m)) as [o|]; [|discriminate]. apply andb_true_iff in Ho as [A V].
     exists o. split; [reflexivity|]. split; [exact A|apply forallb_mem_incl; exact V].
-  - intros n d x Hin Hx. destruct (Hd' n d Hin) as [_ [_ T]]. exact (type_sub_sound _ _ x T Hx).
+  - intros n d Hin. destruct (Hd' n d Hin) as [_ [_ T]]. exact (decl_okb_sound _ T).
 Qed.
 
 Example m0_affine_b : affine_modelb m0 = true.
